@@ -135,8 +135,8 @@ Definition usz (z : Z) : res Z := if z <=? usize_max then Ok z else Panic.
 
 (* CallingConvention::argument_type *)
 Definition argument_type (c : cc) (n : nat) : res loc :=
-  if (length (args c) <=? n)%nat then
-    m <- usz (stack_len c * Z.of_nat (n - length (args c))) ;;
+  if (List.length (args c) <=? n)%nat then
+    m <- usz (stack_len c * Z.of_nat (n - List.length (args c))) ;;
     o <- usz (stack_off c + m) ;;
     Ok (LStack o)
   else
@@ -164,8 +164,8 @@ Definition universe (t : dump) : list reg := d_table t ++ d_seen t.
 Definition res_loc_eqb (a : res loc) (b : loc) : bool :=
   match a with Ok x => loc_eqb x b | _ => false end.
 Definition queries_tie (t : dump) : bool :=
-  list_eqb res_loc_eqb (map (argument_type (d_cc t)) (seq 0 (length (d_argtypes t)))) (d_argtypes t)
-  && Nat.eqb (length (d_argtypes t)) 13
+  list_eqb res_loc_eqb (map (argument_type (d_cc t)) (seq 0 (List.length (d_argtypes t)))) (d_argtypes t)
+  && Nat.eqb (List.length (d_argtypes t)) 13
   && list_eqb optb_eqb (map (is_preserved (d_cc t)) (d_queried t)) (d_is_preserved t)
   && list_eqb optb_eqb (map (is_trashed (d_cc t)) (d_queried t)) (d_is_trashed t)
   && forallb (fun r => mem_reg r (d_queried t)) (d_sp t :: named_regs (d_cc t) ++ d_table t).
